@@ -106,6 +106,17 @@ def run_all ():
   expect('norm unrolls a loop over a new literal table', 'x[0] != 1' in out and "x[1] != 2" in out and 'zip' not in out)
   out = normed("class K:\n  T = ((1, 'a'), (2, 'b'))\n  def f(self, x):\n    for v, (k, s) in zip(x, self.T):\n      if v != k: return s\n    return None\n", inv3)
   expect('norm keeps a table loop when the sequence length is not established', 'zip' in out)
+  # dynamic dispatch: a helper overridden by a subclass is never inlined; a helper another file mentions is never dropped
+  inv4 = {'B.f': ['self', 'x'], 'D.g': ['self'], '<module>': [], '<class B>': [], '<class D>': []}
+  out = normed("class B:\n  def f(self, x):\n    return self._h(x)\n  def _h(self, v):\n    return v + 1\nclass D(B):\n  def g(self):\n    return 0\n  def _h(self, v):\n    return v + 2\n", inv4)
+  expect('norm does not inline an overridden helper', 'self._h(x)' in out)
+  def normed_ext (src, inv_):
+    t = ast.parse(src); saved = norm._INV; norm._INV = {'m': inv_}
+    try: t = norm.normalize_module(t, 'm', {}, external=lambda nm: nm == '_h')
+    finally: norm._INV = saved
+    return ast.unparse(t)
+  out = normed_ext("def f(x):\n  return _h(x)\ndef _h(v):\n  return v + 1\n", {'f': ['x'], '<module>': []})
+  expect('norm keeps a helper that another file mentions', 'def _h' in out and 'x + 1' in out)
   # ---- evaluation along paths ----------------------------------------------------------------------------------
   class _M(object):
     name = 'm'; short = 'm'
